@@ -68,7 +68,7 @@ func judgeWideCase(w *core.W, c *wideCase, parser *route.Parser) {
 	t := route.NewTree()
 	leaves := make([]route.Leaf, c.N)
 	for i := 0; i < c.N; i++ {
-		if i%4000 == 0 {
+		if i%400 == 0 {
 			w.Begin("wide", c) // heartbeat: every batch is its own bounded piece of work
 		}
 		txt, _, _ := c.routeAndPath(i)
@@ -102,7 +102,7 @@ func judgeWideCase(w *core.W, c *wideCase, parser *route.Parser) {
 	}
 	bad := 0
 	for i := 0; i < c.N && bad < 3; i++ {
-		if i%4000 == 0 {
+		if i%400 == 0 {
 			w.Begin("wide", c)
 		}
 		txt, path, want := c.routeAndPath(i)
